@@ -109,6 +109,7 @@ type Result struct {
 	Class    Class
 	Err      error
 	PanicVal interface{}
+	Stack    string
 	Resps    []proto.Message // one per message, only on success
 	Events   []abci.Event    // only on success
 	GasUsed  uint64
